@@ -1492,4 +1492,8 @@ def check(tier: str) -> Report:
         "numba executes the closures with the semantics of the python source (C03 trusted base)",
     ]
     rep.note("the agreement of the two inserters is compared on the un-clipped weights; for 3 axes it follows from the per-axis tables and the verified term structure")
+    if thorough:
+        from ..alias import thorough_selftest  # shared helper: runs mutants/C16.json on scratch copies
+
+        thorough_selftest(rep)
     return rep
